@@ -701,7 +701,7 @@ func genSrc(r *vh.Rand) []byte {
 	}
 }
 
-var parrotCfgs = []string{"0,10,1,10,3,6,1215", "1,4,6,14,2,6,1215", "1,4,6,14,2,6,1195"}
+var parrotCfgs = []string{"1,10,1,10,3,6,1215", "0,10,1,10,3,6,1215", "1,4,6,14,2,6,1215", "1,4,6,14,2,6,1195"}
 
 func genCfg(r *vh.Rand) string {
 	switch r.Pick(22, 40, 20, 18) {
@@ -1205,7 +1205,13 @@ func (rn *runner) GenOp(r *vh.Rand, i int) string {
 	switch r.Pick(16, 24, 6, 12, 12, 10, 8, 12) {
 	case 0: // QUICFrames
 		base, lo, n := rn.pickSlice(r)
-		switch r.Pick(55, 20, 10, 15) {
+		switch r.Pick(45, 18, 8, 12, 17) {
+		case 4: // a layout made for a longer share applied to a shorter or empty one (PTO probe, retransmission, tail)
+			m := n + 1 + r.Intn(40)
+			if r.Chance(30) {
+				n = 0
+			}
+			return fmt.Sprintf("qf %d %d %d %s", base, lo, n, genTiling(r, m, 0, true))
 		case 0:
 			return fmt.Sprintf("qf %d %d %d %s", base, lo, n, genTiling(r, n, 0, true))
 		case 1: // pass-through shape: absolute offsets, base 0 (what MarshalInitialPacketPayload builds)
